@@ -242,12 +242,18 @@ pub fn types_overlap<T: TypeLookup>(self_id: usize, pattern_id: usize, lookup: &
 /// When `mode` is `Any` (used by `types_overlap`):
 /// - Empty union can't match anything
 /// - Union on left: ANY variant could satisfy the relation
+/// A coinductive hypothesis: the pair of types together with the enclosing unions of each side.
+/// A type that contains a recursive reference means different things under different enclosing
+/// unions (`Cons['int, ^]` is a cell of whichever list encloses it), so the ids alone do not
+/// identify what was assumed.
+type Assumption = (usize, usize, Vec<usize>, Vec<usize>);
+
 fn check_type_relation<T: TypeLookup>(
     self_id: usize,
     pattern_id: usize,
     lookup: &T,
     mode: UnionMode,
-    assumptions: &mut HashSet<(usize, usize)>,
+    assumptions: &mut HashSet<Assumption>,
     self_stack: &mut Vec<usize>,
     pattern_stack: &mut Vec<usize>,
 ) -> bool {
@@ -257,7 +263,12 @@ fn check_type_relation<T: TypeLookup>(
     }
 
     // Check if we've already assumed this relation holds (coinductive hypothesis)
-    let key = (self_id, pattern_id);
+    let key = (
+        self_id,
+        pattern_id,
+        self_stack.clone(),
+        pattern_stack.clone(),
+    );
     if assumptions.contains(&key) {
         return true;
     }
@@ -340,7 +351,7 @@ fn check_type_relation<T: TypeLookup>(
             // if the derivation fails, it and everything concluded under it are withdrawn, so a
             // refuted pair is not taken for granted by a later alternative.
             let saved = assumptions.clone();
-            assumptions.insert(key);
+            assumptions.insert(key.clone());
 
             let already_on_stack = self_stack.contains(&self_id);
             if !already_on_stack {
@@ -386,7 +397,7 @@ fn check_type_relation<T: TypeLookup>(
             // union-on-right then a cycle — terminates at the assumption check above instead of
             // recursing without bound.
             let saved = assumptions.clone();
-            assumptions.insert(key);
+            assumptions.insert(key.clone());
 
             let already_on_stack = pattern_stack.contains(&pattern_id);
             if !already_on_stack {
